@@ -361,6 +361,30 @@ class Interp:
                 st.ev(kind='RMW', loc=loc, ord=order, rval=r, wval=w, op=op); return cont(st, r)
             if op == 'store':
                 st.ev(kind='W', loc=loc, ord=order, wval=args[1]); return cont(st, Opaque('unit'))
+        mcas = re.search(r'Atomic::(compare_exchange|compare_exchange_weak)$', n)
+        if mcas:
+            # one compare-exchange = two mutually exclusive events chosen by a per-instance variable k:
+            # success (RMW, success ordering, value read == expected) or failure (plain read, failure
+            # ordering; value read != expected, or -- weak form only -- any value: spurious failure).
+            ptr, exp, new, so, fo = args
+            if not (isinstance(ptr, Ptr) and ptr.root[0] == 'H' and ptr.path == (0,)): raise Unsupported(f"atomic on {ptr}")
+            loc = ('cnt', ptr.root[1]); weak = mcas.group(1).endswith('weak')
+            k = st.fresh('k')
+            for succ in (True, False):
+                st2 = st.clone(); st2.nsym = st.nsym
+                r = st2.fresh('r')
+                if succ:
+                    st2.ev(kind='RMW', loc=loc, ord=so[1], rval=r, wval=new, op='cas', fresh=[k]); st2.pc += [k == 1, r == exp]
+                    rv = Enum('Result', 'Ok', [r])
+                else:
+                    st2.ev(kind='R', loc=loc, ord=fo[1], rval=r, op='cas-fail', fresh=[k]); st2.pc += [k == 0] + ([] if weak else [r != exp])
+                    rv = Enum('Result', 'Err', [r])
+                try: cont(st2, rv)
+                except PathEnd as e: s.results.append((st2, ('end', e.why)))
+            return
+        if n in ('Result::is_ok', 'Result::is_err'):
+            r0 = args[0] if isinstance(args[0], Enum) else st.load(args[0])
+            return cont(st, (r0.variant == 'Ok') == n.endswith('is_ok'))
         if n == 'fence' or n.endswith('::fence'):
             st.ev(kind='F', ord=args[0][1]); return cont(st, Opaque('unit'))
         if n.endswith('Atomic::new'): return cont(st, Struct('Atomic', [args[0]]))
